@@ -150,6 +150,18 @@ func NewChaos(w *World, o ChaosOpts) *Chaos {
 				if ch.Ending {
 					return
 				}
+				if w.Chance(1, 2, "inbound-when-busy") {
+					// a timer wake-up finds the peer manager idle; half of the inbound
+					// attempts wait for the peer to be in the middle of something
+					if w.WaitUntil("inbound.busy", 6*time.Second, func() bool { return ch.peerBusy(cp) }) {
+						w.Probe("inbound-while-busy")
+						target := w.S.Steps + w.Draw(8, "inboundoffset")
+						w.WaitUntil("inbound.offset", time.Second, func() bool { return w.S.Steps >= target })
+					}
+					if ch.Ending {
+						return
+					}
+				}
 				c := w.Net.DialIn(ch.E.Lis[0], cp.Site, cp.Spec.RemoteIP, ch.E.LocalIP)
 				w.Go("inbound-conn", func() { ch.connScript(cp, c) })
 			}
@@ -410,4 +422,22 @@ func (ch *Chaos) AllPlugs() []*Plug {
 		}
 	}
 	return out
+}
+
+// peerBusy reports whether the peer is in the middle of something right now:
+// a callback executing, or a frame written within the last few events.
+func (ch *Chaos) peerBusy(cp *ChaosPeer) bool {
+	w := ch.w
+	if st := cp.Cur.Plug.st; st == plInE || st == plInH || st == plInC {
+		return true
+	}
+	for _, c := range cp.Site.ConnList() {
+		c.mu.Lock()
+		recent := len(c.Frames) > 0 && !c.LClosed && w.Seq()-c.Frames[len(c.Frames)-1].Seq < 4
+		c.mu.Unlock()
+		if recent {
+			return true
+		}
+	}
+	return false
 }
